@@ -36,7 +36,9 @@ from pv.core import Fail, Sub, Ctx, petl_frame, exc_fail  # noqa: E402,F401
 
 
 def _reset_globals():
+    import logging
     import petl.config as cfg
+    logging.getLogger("petl").setLevel(logging.ERROR)  # petl logs advice (e.g. cursors with fromdb) through logging
     cfg.sort_buffersize = 100000
     cfg.failonerror = False
     cfg.look_limit = 5
